@@ -37,7 +37,7 @@ theorem withObjs_bnd {n : Nat} {c0 : ECtx} (hc0 : CtxBnd n c0) (uid0 : Nat) (os 
     CtxBnd n { c0 with objs := evalObjs c0 uid0 os [] } :=
   ⟨hc0.envs, BndL_evalObjs hc0 uid0 os [] (BndL_nil n), hc0.cur⟩
 
-theorem runMuts_bnd {n : Nat} (toks : Array TokInfo) (combs : List PosComb) (cur : Option Nat) (uid0 : Nat) (objs : List ObjLit)
+theorem runMuts_bnd {n : Nat} (toks : Array TokKey) (combs : List PosComb) (cur : Option Nat) (uid0 : Nat) (objs : List ObjLit)
     (hcur : ∀ i, cur = some i → i < n) : ∀ (ms : List TMut) (envs : List (List V)),
     (∀ env ∈ envs, BndL n env) → ∀ env ∈ runMuts toks combs cur uid0 objs ms envs, BndL n env
   | [], envs, h => by simpa [runMuts] using h
@@ -56,7 +56,7 @@ theorem runMuts_bnd {n : Nat} (toks : Array TokInfo) (combs : List PosComb) (cur
       · exact hlast
       · exact BndL_setNth (Bnd_setPath (Bnd_evalTm hc m.val) _ _ _ (Bnd_getArg hlast _)) _ hlast
 
-theorem pathCtx_bnd {n : Nat} (toks : Array TokInfo) (combs : List PosComb) (p : TPath) (args : List V) (cur : Option Nat) (uid0 : Nat)
+theorem pathCtx_bnd {n : Nat} (toks : Array TokKey) (combs : List PosComb) (p : TPath) (args : List V) (cur : Option Nat) (uid0 : Nat)
     (hargs : BndL n args) (hcur : ∀ i, cur = some i → i < n) : CtxBnd n (pathCtx toks combs p args cur uid0) := by
   have henvs : ∀ env ∈ runMuts toks combs cur uid0 p.objs p.muts [args], BndL n env :=
     runMuts_bnd toks combs cur uid0 p.objs hcur p.muts [args] (by
@@ -67,7 +67,7 @@ theorem pathCtx_bnd {n : Nat} (toks : Array TokInfo) (combs : List PosComb) (p :
   exact ⟨henvs, BndL_evalObjs ⟨henvs, BndL_nil n, hcur⟩ uid0 p.objs [] (BndL_nil n), hcur⟩
 
 /-- the values the whole-parser model manipulates hold only tokens the scanner has delivered so far -/
-theorem treeSem_inv (toks : Array TokInfo) (combs : List PosComb) (tbl : PathTable) :
+theorem treeSem_inv (toks : Array TokKey) (combs : List PosComb) (tbl : PathTable) :
     SemInv (treeSem toks combs tbl) (fun n v => Bnd n v) (fun n st => ∀ r, st.root = some r → Bnd n r) where
   monoP := fun _ _ _ h hv => Bnd_mono h hv
   monoQ := fun _ _ _ h hq r hr => Bnd_mono h (hq r hr)
@@ -112,8 +112,10 @@ theorem treeSem_inv (toks : Array TokInfo) (combs : List PosComb) (tbl : PathTab
 /-- C02 / C07, token level, every run: whatever the LALR tables and whatever the action terms, every token
     in the tree the parser model returns — after an accepted parse or after any amount of error
     recovery — is one of the tokens the scanner delivered to it (`i < s.pos`, the number of `Lex`
-    calls): recovery and actions never invent a token. -/
-theorem parse_no_invention (t : YYTab) (combs : List PosComb) (tbl : PathTable) (toks : Array TokInfo)
+    calls): recovery and actions never invent a token.  Since positions are kept as references to tokens
+    (`PRef`, Model/Term.lean) and `V.toks` counts those references too, the same holds for every boundary
+    of every position in the tree: it is the start or the end of a token already delivered, or absent. -/
+theorem parse_no_invention (t : YYTab) (combs : List PosComb) (tbl : PathTable) (toks : Array TokKey)
     (c : Option Nat) (s : YYSt V TreeSt) (h : parseModel t combs tbl toks = .ok (c, s)) (r : V) (hr : s.aux.root = some r) :
     ∀ i ∈ r.toks, i < s.pos := by
   have hs := treeSem_inv toks combs tbl
